@@ -821,10 +821,20 @@ def _system_action(state, start_event):
     return asyncio.run(LLMGenerationActionsV2dotx.check_if_flow_exists(None, state=state, flow_id=start_event.get("flow_id")))
 
 
+_PARSED = {}
+
+
 class _Run:
     def __init__(self, src):
         sm, flows = _M["sm"], _M["flows"]
-        cfg = _M["mkcfg"](_M["parse"](filename="", content=src, include_source_mapping=False, version="2.x")["flows"])
+        # every cut point re-runs the same program several times: parse it once, hand every run its own copy of the configs
+        import pickle
+
+        if _PARSED.get("src") != src:
+            cfg0 = _M["mkcfg"](_M["parse"](filename="", content=src, include_source_mapping=False, version="2.x")["flows"])
+            _PARSED.clear()
+            _PARSED.update(src=src, blob=pickle.dumps(cfg0))
+        cfg = pickle.loads(_PARSED["blob"])
         self.state = flows.State(flow_states=[], flow_configs=cfg)
         sm.initialize_state(self.state)
         self.started = []  # (action_uid, name) of StartXAction events seen so far
